@@ -552,12 +552,26 @@ func runC13(s *kernel.Sim, cfg string) {
 		case !l.faultsOn:
 		case cfg == "single":
 			if downloads-1 == singleAt {
-				f = simhttp.Fault(1 + t.Choose(10, "fault-kind"))
+				f = simhttp.Fault(1 + t.Choose(11, "fault-kind"))
 			}
 		case shortDeadline && t.Chance(1, 2, "stall-under-short-deadline"):
 			f = simhttp.Stall
 		case t.Chance(1, faultDen, "fault"):
-			f = simhttp.Fault(1 + t.Choose(10, "fault-kind"))
+			f = simhttp.Fault(1 + t.Choose(11, "fault-kind"))
+		}
+		if f == simhttp.Blank && path != "/index.json" && path != "/services.json" {
+			// White space is no JSON document; as a list of rules or hosts it
+			// would be a list without entries, which is not a failure.
+			f = simhttp.EmptyBody
+		}
+		if f == simhttp.Blank {
+			// A complete body as published, which a cache file may hold
+			// although no document can be read from it (see publishedJunk).
+			cf := l.cacheFileOf(path)
+			if l.ever[cf] == nil {
+				l.ever[cf] = map[string]int{}
+			}
+			l.ever[cf]["\n"] = l.currentVer[path]
 		}
 		param := 0
 		switch f {
